@@ -20,7 +20,7 @@ def run(prop, tier, seed, replay=None):
         "Tier C operations (gcd, inv_mod, bezout_mod, exp_mod, mod_n, arazi_qi, div and general shifts, rint wrappers, mpz conversions) are modelled and/or "
         "checked against the specification by correspondence only; no all-inputs theorem is claimed for them",
         "__RECINT_USE_FAST_128 is not defined in this configuration (the __uint128_t path is compiled out)",
-        "mpz_import/mpz_export/mpz_class arithmetic used by the conversions and by the harness are GMP (trusted)",
+        "mpz_import/mpz_export/mpz_fdiv_r_2exp/mpz_class arithmetic used by the conversions and by the harness are GMP (trusted); conversions to/from double are only checked on integers of magnitude < 2^53",
     ]
     L = flow.lean_stage(V, ["GivaroModel.Props.C06"], "GivaroModel/Props/C06.lean")
     thorough = tier == "thorough"
@@ -30,13 +30,28 @@ def run(prop, tier, seed, replay=None):
         built = flow.build_harnesses("h_recint", configs=cfgs, extra=extra, link_lib=False)
         for c, b in built.items():
             bins["%s/%s" % (c, tag)] = b
+    # conversions (links the library: Integer); ruint<6>(const char*) does not link on a tree without fixes/C06_7
+    try:
+        bins["S/conv"] = flow.build_harnesses("h_recint_conv", configs=("S",), extra=("-DC06_STR6",), link_lib=True)["S"]
+    except common.BuildError as e:
+        if "ruint(char const*)" not in str(e):
+            raise
+        V.violation("impl_cvu_from_str6", {"obligation": "correspondence: implementation vs specification (cvu_from / cvs_from, K = 6, const char*)",
+                                          "what": "RecInt::ruint<6>::ruint(const char*) is declared but not defined: ruint<6>(\"1\") / rint<6>(\"1\") do not link",
+                                          "lines": ["cvu_from 6 0 1", "cvs_from 6 0 1"], "driver": [str(e)[-400:]]})
+        bins["S/conv"] = flow.build_harnesses("h_recint_conv", configs=("S",), extra=(), link_lib=True)["S"]
     lines = None
     if replay:
         lines = [l.split(" = ")[0] for l in json.load(open(replay)).get("lines", []) if l]
     res = {"results": [], "crashes": []}
     for i, (cfg, b) in enumerate(bins.items()):
         # a different seed stream per build so that the builds do not repeat each other's cases
-        r = flow.correspond({cfg: b}, "recint", lines=lines, harness_args=([] if lines is not None else [tier, str(seed * 16 + i)]))
+        mine = lines
+        if lines is not None:            # replay: conversion lines go to the conversion harness, the others to the arithmetic ones
+            mine = [l for l in lines if l.startswith("cv") == cfg.endswith("/conv")]
+            if not mine:
+                continue
+        r = flow.correspond({cfg: b}, "recint", lines=mine, harness_args=([] if mine is not None else [tier, str(seed * 16 + i)]))
         res["results"] += r["results"]
         res["crashes"] += r["crashes"]
     counts = flow.decide(V, res, known=report.findings_for(prop), key_of=lambda line: " ".join(line.split(" ", 2)[:1]))
